@@ -156,6 +156,11 @@ func c09Run(c *c09Case) (finds [][2]string, abort string, stats map[string]int) 
 			if id == "" {
 				add("no-bookkeeping", fmt.Sprintf("event %d: no transaction entry for the new request", ei))
 			}
+			for _, t := range post.Tx {
+				if t.ID == id && !t.Timer {
+					add("timer-not-armed", fmt.Sprintf("event %d: the new request has no retransmission timer", ei))
+				}
+			}
 			reqs = append(reqs, &c09Req{sess: ev.S % len(sessions), node: ss.node, wire: d.M.Seq, bytes: d.B, id: id})
 			stats["requests"]++
 		default:
@@ -228,6 +233,11 @@ func c09Run(c *c09Case) (finds [][2]string, abort string, stats map[string]int) 
 					stats["retransmissions"]++
 					if !inTx(q.id) {
 						add("entry-lost", fmt.Sprintf("event %d: request #%d still has retries left but its bookkeeping is gone", ei, k))
+					}
+					for _, t := range post.Tx {
+						if t.ID == q.id && !t.Timer {
+							add("timer-not-armed", fmt.Sprintf("event %d: request #%d was retransmitted but its timer was not re-armed", ei, k))
+						}
 					}
 				default:
 					if len(ds) > 0 {
